@@ -291,6 +291,12 @@ func c04Sels(r *gen.Rand, files []world.File) []c04Sel {
 	}
 	sels = append(sels, c04Sel{Kind: "one", Arg: pick()}, c04Sel{Kind: "one", Arg: "no/such/file"})
 	sels = append(sels, c04Sel{Kind: "prefix", Arg: c04Dirs[r.Intn(len(c04Dirs))]})
+	for _, f := range files { // names with a leading dot, selected by that dot
+		if strings.HasPrefix(f.Name, ".") {
+			sels = append(sels, c04Sel{Kind: "prefix", Arg: "."}, c04Sel{Kind: "not", A: &c04Sel{Kind: "prefix", Arg: "."}})
+			break
+		}
+	}
 	sels = append(sels, c04Sel{Kind: "not", A: &c04Sel{Kind: "or", A: &c04Sel{Kind: "suffix", Arg: fmt.Sprint(r.Intn(10))}, B: &c04Sel{Kind: "prefix", Arg: "a/"}}})
 	return sels
 }
